@@ -22,16 +22,91 @@ theorem minCapa_le_wantCapa (a : Arr) (pos : Nat) (h : a.size ≤ a.capa) :
     · have := dblLoop_gt a.capa pos (by omega); omega
     · have := dblLoop_gt a.capa a.size (by omega); omega
 
+theorem setcapaAsk_true (capa : Nat) (o o' : Oracle) (h : setcapaAsk capa o = (true, o')) : capa ≤ maxCapa := by
+  unfold setcapaAsk at h
+  split at h
+  · simp at h
+  · omega
+
+theorem setcapaAsk_len (capa : Nat) (o : Oracle) : o.length ≤ (setcapaAsk capa o).2.length + 1 := by
+  unfold setcapaAsk
+  split
+  · simp
+  · cases o <;> simp [Oracle.next]
+
+theorem setcapaAsk_nil (capa : Nat) : setcapaAsk capa [] = (decide (capa ≤ maxCapa), []) := by
+  unfold setcapaAsk
+  split
+  · rename_i h; simp; omega
+  · rename_i h; simp [Oracle.next]; omega
+
 theorem retryCapa_some (capa mincapa : Nat) (o : Oracle) (c : Nat) (o' : Oracle)
-    (hle : mincapa ≤ capa) (h : retryCapa capa mincapa o = (some c, o')) : mincapa ≤ c ∧ c ≤ capa := by
+    (hle : mincapa ≤ capa) (h : retryCapa capa mincapa o = (some c, o')) :
+    mincapa ≤ c ∧ c ≤ capa ∧ c ≤ maxCapa := by
   fun_induction retryCapa capa mincapa o with
-  | case1 capa o o1 hn => simp at h; omega
+  | case1 capa o o1 hn =>
+    have := setcapaAsk_true _ _ _ hn
+    simp at h; omega
   | case2 capa o o1 hn hc => simp at h
   | case3 capa o o1 hn hc ih => have := ih (by omega) h; omega
 
-/-- with an allocator that never refuses, the first request is granted -/
-theorem retryCapa_nil (capa mincapa : Nat) : retryCapa capa mincapa [] = (some capa, []) := by
-  unfold retryCapa; simp [Oracle.next]
+/-- with an allocator that never refuses, a request is granted as soon as the table size fits the word: the loop
+    cannot give up while the minimum capacity itself fits -/
+theorem retryCapa_nil (capa mincapa : Nat) (hm : mincapa ≤ maxCapa) (hle : mincapa ≤ capa) :
+    ∃ c, retryCapa capa mincapa [] = (some c, []) := by
+  generalize ho : ([] : Oracle) = o
+  fun_induction retryCapa capa mincapa o with
+  | case1 capa o o1 hn =>
+    subst ho
+    rw [setcapaAsk_nil] at hn
+    simp at hn
+    exact ⟨capa, by rw [hn.2]⟩
+  | case2 capa o o1 hn hc =>
+    subst ho
+    rw [setcapaAsk_nil] at hn
+    simp at hn
+    omega
+  | case3 capa o o1 hn hc ih =>
+    subst ho
+    rw [setcapaAsk_nil] at hn
+    simp at hn
+    rw [← hn.2]
+    exact ih (by omega) hn.2.symm
+
+/-- the number of allocator requests the retry loop makes is logarithmic in the distance between the wished and the
+    minimum capacity (it was linear before the repair: one failing request per slot of the gap) -/
+theorem retryCapa_requests' (capa mincapa : Nat) (o : Oracle) :
+    o.length ≤ (retryCapa capa mincapa o).2.length +
+      (if capa - mincapa = 0 then 1 else Nat.log2 (capa - mincapa) + 2) := by
+  fun_induction retryCapa capa mincapa o with
+  | case1 capa o o1 hn =>
+    have := setcapaAsk_len capa o; rw [hn] at this
+    simp only at this ⊢; split <;> omega
+  | case2 capa o o1 hn hc =>
+    have := setcapaAsk_len capa o; rw [hn] at this
+    simp only at this ⊢; split <;> omega
+  | case3 capa o o1 hn hc ih =>
+    have h1 := setcapaAsk_len capa o; rw [hn] at h1
+    simp only at h1
+    have e : mincapa + (capa - mincapa) / 2 - mincapa = (capa - mincapa) / 2 := by omega
+    rw [e] at ih
+    have hne : ¬ (capa - mincapa = 0) := by omega
+    rw [if_neg hne]
+    by_cases h2 : 2 ≤ capa - mincapa
+    · have hlog : Nat.log2 (capa - mincapa) = Nat.log2 ((capa - mincapa) / 2) + 1 := by
+        rw [Nat.log2_def (capa - mincapa)]; simp [h2]
+      have : ¬ ((capa - mincapa) / 2 = 0) := by omega
+      rw [if_neg this] at ih
+      omega
+    · have h1' : capa - mincapa = 1 := by omega
+      have : (capa - mincapa) / 2 = 0 := by omega
+      rw [if_pos this] at ih
+      omega
+
+theorem retryCapa_requests (capa mincapa : Nat) (o : Oracle) :
+    o.length ≤ (retryCapa capa mincapa o).2.length + (Nat.log2 (capa - mincapa) + 2) := by
+  have := retryCapa_requests' capa mincapa o
+  split at this <;> omega
 
 theorem occupied_append (a b : List (Option Nat)) : occupied (a ++ b) = occupied a + occupied b := by
   simp [occupied]
@@ -185,12 +260,80 @@ theorem setcapa_wf (a : Arr) (capa : Nat) (o : Oracle) (h : WF a) : WF (setcapa 
     simp only
     by_cases hpos : capa > 0
     · simp only [hpos, if_true]
-      cases o.next with
+      cases setcapaAsk capa o with
       | mk b o1 =>
         cases b
         · exact hw
         · exact ⟨hw.size_eq, hw.tally_eq, hsz⟩
     · simp only [hpos, if_false]
       exact ⟨rfl, by simp [clear, occupied], by simp [clear]⟩
+
+/-! ### the capacity stays one whose table size fits the machine word -/
+
+/-- the slot table's size in bytes fits a 64-bit word -/
+def Fits (a : Arr) : Prop := a.capa ≤ maxCapa
+
+theorem insert_fits (a : Arr) (pos v : Nat) (o : Oracle) (hw : WF a) (h : Fits a) : Fits (insert a pos v o).arr := by
+  unfold insert
+  split
+  · exact h
+  · cases o.next with
+    | mk b o1 =>
+      cases b with
+      | false => exact h
+      | true =>
+        simp only
+        split
+        · cases hr : retryCapa (wantCapa a pos) (minCapa a pos) o1 with
+          | mk rc o2 =>
+            cases rc with
+            | none => exact h
+            | some c =>
+              have hb := retryCapa_some _ _ _ _ _ (minCapa_le_wantCapa a pos hw.size_le_capa) hr
+              simp only
+              split
+              · exact hb.2.2
+              · exact hb.2.2
+        · exact h
+
+theorem update_capa (a : Arr) (pos v : Nat) (o : Oracle) : (update a pos v o).arr.capa = a.capa := by
+  unfold update
+  split
+  · rfl
+  · split
+    · cases o.next with
+      | mk b o1 => cases b <;> rfl
+    · split
+      · rfl
+      · cases o.next with
+        | mk b o1 => cases b <;> rfl
+
+theorem delete_capa (a : Arr) (i c : Nat) : (delete a i c).1.capa = a.capa := by
+  unfold delete; split
+  · rfl
+  · simp only; split <;> split <;> rfl
+
+theorem uplete_capa (a : Arr) (i c : Nat) : (uplete a i c).1.capa = a.capa := by
+  unfold uplete; split <;> rfl
+
+theorem setcapa_fits (a : Arr) (capa : Nat) (o : Oracle) (h : Fits a) : Fits (setcapa a capa o).1 := by
+  unfold setcapa
+  split
+  · exact h
+  · generalize hd : (if capa < a.size then delete a capa (a.size - capa) else (a, 0, [])) = d
+    have hcap : d.1.capa = a.capa := by
+      rw [← hd]; split
+      · exact delete_capa _ _ _
+      · rfl
+    obtain ⟨a1, n1, ev1⟩ := d
+    simp only at hcap ⊢
+    split
+    · cases hs : setcapaAsk capa o with
+      | mk b o1 =>
+        cases b with
+        | false => simp only [Fits]; rw [hcap]; exact h
+        | true => simp only [Fits]; exact setcapaAsk_true _ _ _ hs
+    · simp [Fits, maxCapa]
+
 
 end Hawk.Arr
